@@ -44,7 +44,13 @@ func (sw *simWriter) write(p []byte) (n int, err error) {
 	sw.attempts++
 	n = len(p)
 	fk := ""
-	if f, ok := w.faults[[2]int{sw.id, attempt}]; ok {
+	global := w.globalAttempt
+	w.globalAttempt++
+	f, ok := w.faults[[2]int{sw.id, attempt}]
+	if !ok {
+		f, ok = w.faults[[2]int{-1, global}] // W = -1 addresses the k-th Write attempt of the whole episode
+	}
+	if ok {
 		fk = f.Kind
 		switch f.Kind {
 		case "err":
